@@ -128,7 +128,7 @@ pub fn histories(ctx: &Ctx) {
     let f = match file_ctx(vk) {
         Ok(f) => f,
         Err(e) => {
-            ctx.machinery_error(format!("variant {vk} cannot be opened: {e}"));
+            ctx.violation(format!("{P}/precondition/variant-cannot-be-opened"), format!("file variant {vk} cannot be opened by a fresh reader: {e}"));
             return;
         }
     };
@@ -189,7 +189,7 @@ pub fn faults(ctx: &Ctx) {
     let f = match file_ctx(vk) {
         Ok(f) => f,
         Err(e) => {
-            ctx.machinery_error(format!("variant {vk} cannot be opened: {e}"));
+            ctx.violation(format!("{P}/precondition/variant-cannot-be-opened"), format!("file variant {vk} cannot be opened by a fresh reader: {e}"));
             return;
         }
     };
@@ -309,7 +309,7 @@ pub fn far(ctx: &Ctx) {
         bytes[q * 1024 + 300 + qi] ^= 1 << (qi % 8);
     }
     let Ok(r0) = E57Reader::new(Dev::new(bytes.clone())) else {
-        ctx.machinery_error("far file cannot be opened".to_string());
+        ctx.violation(format!("{P}/precondition/far-file-cannot-be-opened"), "the 306-page file cannot be opened".to_string());
         return;
     };
     let blobs = blob_list(&r0);
@@ -318,7 +318,7 @@ pub fn far(ctx: &Ctx) {
     let fresh = match fresh_results(&bytes, &ops) {
         Ok((f, _)) => f,
         Err(e) => {
-            ctx.machinery_error(format!("fresh results: {e}"));
+            ctx.violation(format!("{P}/precondition/fresh-results"), format!("fresh results: {e}"));
             return;
         }
     };
